@@ -132,6 +132,18 @@ class PathCtx:
             return True
         if z3.is_false(s):
             return False
+        # syntactic shortcut (no solver call, no decision): the condition or its negation is literally on the path already
+        ids = getattr(self, "_pc_ids", None)
+        if ids is None:
+            ids = self._pc_ids = set()
+            self._pc_ids_n = 0
+        for x in self.pc[self._pc_ids_n:]:
+            ids.add(x.get_id())
+        self._pc_ids_n = len(self.pc)
+        if t.get_id() in ids:
+            return True
+        if z3.Not(t).get_id() in ids or (z3.is_not(t) and t.arg(0).get_id() in ids):
+            return False
         i = len(self.decisions)
         if i < len(self.prefix):
             d, forced = self.prefix[i]
